@@ -738,3 +738,53 @@ def corr_names(ctx, out, rng, add_failure):
         bump(out, "names_corr", "naming:" + ("distinct" if len(set(got)) == len(got) else "root-collision"))
         if len(set(labels)) < len(labels):
             out["nontrivial"].add("nm:" + json.dumps(labels))
+    # 4. wave 3: the TRANSLATED _unique_name (Gen/C09Newick.lean) against the real method: arbitrary dict states (reachable or not:
+    # any counters, keys that look like suffixed names so the recursive re-check runs several levels deep), a sequence of calls;
+    # compared: every returned name and the dict afterwards with its insertion order
+    gcases = []
+    for i in range(ctx.budget(400, 6000)):
+        init = i % 4 == 0
+        base = rng.choice(["x", "edge", "a b", "it's", "é", "1", "x.1", "root"])
+        pool = [base, None, "", "edge", "y"]
+        used = []
+        if not init:
+            ks = []
+            k = base
+            for _ in range(rng.randint(0, 4)):  # a chain k, k.c+1, k.c+1.d+1, ... so that the re-check recurses
+                cnt = rng.randint(-2, 3)
+                ks.append((k, cnt))
+                k = k + "." + str(cnt + 1)
+            for _ in range(rng.randint(0, 3)):
+                ks.append((rng.choice(["edge", "y", "edge.0", "edge.1", "x.2", "x.2.2", "é.1", ""]), rng.randint(-3, 4)))
+            rng.shuffle(ks)
+            seen_k = set()
+            for kk, vv in ks:
+                if kk not in seen_k:
+                    seen_k.add(kk)
+                    used.append([kk, vv])
+            pool += [kk for kk, _ in used]
+        labels = [rng.choice(pool) for _ in range(rng.randint(1, 6))]
+        gcases.append((init, used, labels))
+    reps = ctx.driver.batch([("gen_unique", dict(init=i, used=u, labels=l)) for i, u, l in gcases])
+    for (init, used, labels), rep in zip(gcases, reps):
+        out["evaluations"] += 1
+        inp = dict(init=init, used=used, labels=labels)
+        if isinstance(rep, dict) and "error" in rep:
+            add_failure(out, "corr", "driver error", inp, "reply", rep, confirmed=False)
+            continue
+        b = TreeBuilder()
+        if not init:
+            b._used_names = {k: v for k, v in used}
+        try:
+            got = [b._unique_name(l) for l in labels]
+            got_used = [[k, v] for k, v in b._used_names.items()]
+        except Exception as e:  # noqa: BLE001
+            got, got_used = f"{type(e).__name__}: {e}", None
+        if got != rep["names"]:
+            add_failure(out, "corr", "TreeBuilder._unique_name differs from its translation (Gen/C09Newick.lean uniqueName): returned names", inp, rep["names"], got, confirmed=False)
+            continue
+        if got_used != rep["used"]:
+            add_failure(out, "corr", "TreeBuilder._unique_name differs from its translation (Gen/C09Newick.lean uniqueName): _used_names afterwards", inp, rep["used"], got_used, confirmed=False)
+            continue
+        bump(out, "names_corr", "gen_unique:" + ("init" if init else "state") + (":recursed" if any(n not in (l or "edge", ) and n.count(".") >= 2 for n, l in zip(got, labels)) else ""))
+        out["nontrivial"].add("gu:" + json.dumps(inp, ensure_ascii=False))
